@@ -10,7 +10,7 @@ import (
 
 func init() {
 	props["C20"] = c20
-	floors["C20"] = map[string]int{"C20.R1": 6, "C20.R2": 6, "C20.R3": 3, "C20.R4": 8}
+	floors["C20"] = map[string]int{"C20.R1": 6, "C20.R2": 6, "C20.R3": 3, "C20.R4": 8, "C20.R5": 6}
 }
 
 // sizeOfContent: v derives from the size of the content being served:
@@ -348,6 +348,50 @@ func c20(r *Report) {
 				}
 			}
 			r.Decide("path", fmt.Sprintf("(*M/%s.Modifier).ModifyResponse: the multipart writer is closed before its buffer becomes the body", m.name), okClose, "mpw.Close() precedes the body assignment", "the closing boundary is missing from the multipart body", f.Pos())
+		}
+	})
+
+	r.Guard("C20.R5", "a synthesised body never aliases storage of the shared modifier that an answer writes to", func() {
+		// A modifier value serves every matching response, concurrently and one after the other; a
+		// body that points into scratch storage kept on the modifier is overwritten by the next
+		// answer before the first one was read.
+		for _, m := range mods {
+			f := m.f
+			all := map[string]bool{}
+			for _, c := range calls(f) {
+				all[calleeName(c)] = true
+			}
+			n := 0
+			for _, in := range instrs(f) {
+				st, ok := in.(*ssa.Store)
+				if !ok || msgFieldAddr(st.Addr, "Body") == nil {
+					continue
+				}
+				n++
+				var bad *ssa.FieldAddr
+				for v := range w.backSlice(st.Val, flowOpt{Through: all, BinOps: true}) {
+					fa, isFa := v.(*ssa.FieldAddr)
+					if !isFa || fa.X != ssa.Value(f.Params[0]) || fa.Referrers() == nil {
+						continue
+					}
+					// only a pointer that is used for more than reading the field can be written through
+					for _, u := range *fa.Referrers() {
+						if ld, isLd := u.(*ssa.UnOp); isLd && ld.Op == token.MUL {
+							continue
+						}
+						if _, isDbg := u.(*ssa.DebugRef); isDbg {
+							continue
+						}
+						bad = fa
+					}
+				}
+				key := fmt.Sprintf("(*M/%s.Modifier).ModifyResponse: body assignment #%d does not alias modifier-owned scratch storage", m.name, n)
+				if bad != nil {
+					r.Fail("flow", key, fmt.Sprintf("the body is backed by the modifier's field %s, whose address is handed out for writing in this function: the next answer overwrites a body that was not read yet", fieldObj(bad).Name()), nil, st.Pos())
+				} else {
+					r.Hold("flow", key, "the body is backed by the configured content (read only) or by storage allocated for this answer", st.Pos())
+				}
+			}
 		}
 	})
 }
